@@ -32,7 +32,11 @@ class C15(Spec):
     rule = ("one case = one SliceBy call (keys given explicitly, values identified by original index, lengths may differ; "
             "less = keys[i]<keys[j] on []int or []string keys (independent strings or substrings of one shared string), or an "
             "inconsistent hash-based less; float64/float32 keys and values given as bit-pattern tokens incl. -0/+0/NaN/denormals, "
-            "compared bitwise), or several SliceBy calls re-slicing the same backing arrays (multi), or one Unique* call; "
+            "compared bitwise), or several SliceBy calls re-slicing the same backing arrays (multi; with et=K/V the key / value "
+            "elements are multi-word types: 24-byte struct, [3]int32, struct{string;int}, 40-byte struct with a pointer, every field "
+            "carrying the key / original index so that torn elements show; small lengths and BIG inputs of 2^16+1, 131072+k, "
+            "200003 (thorough: also 300007, 2^19) elements, shapes random / few distinct keys / sorted / organ-pipe, "
+            "GOMAXPROCS >= 4), or one Unique* call; "
             "compared with the model: final keys, final value permutation, number and hash of all Less(i,j)->r calls "
             "(full call log for min<=16), Unique result and backing array. distinct by script line; non-trivial = "
             "at least 2 elements in the common prefix / in the Unique input")
@@ -79,13 +83,18 @@ class C15(Spec):
             # several SliceBy calls on the same backing arrays: every step is judged like a single call
             steps = script.split(" | ")[1:]
             obs = impl.split(" | ")
+            # `multi <kcap> <vcap> et=<K>/<V>`: element types of the key / value slices (interpreted by the harness only;
+            # every element carries its key / original index in all of its fields, torn elements are listed by the harness)
+            et = " (element types %s)" % w[3][3:] if len(w) > 3 and w[3].startswith("et=") else ""
             if len(obs) != len(steps):
                 return ("malformed", "multi: %d steps, %d observations: %s" % (len(steps), len(obs), impl[:100]))
             for k, (st, ob) in enumerate(zip(steps, obs)):
                 sw = st.split()
                 o = self.oracle_slice(sw[0], parse_ints(sw[1]), int(sw[2]), ob)
                 if o is not None:
-                    return (o[0], "step %d of %d (same backing arrays reused): %s" % (k + 1, len(steps), o[1]))
+                    if et and len(steps) == 1:
+                        return (o[0], "%d keys%s: %s" % (sw[1].count(",") + 1, et, o[1]))
+                    return (o[0], "step %d of %d (same backing arrays reused)%s: %s" % (k + 1, len(steps), et, o[1]))
             return None
         if w[0] != "slice":
             return None
@@ -115,6 +124,11 @@ class C15(Spec):
         k, v, cnt = parse_ints(p[1]), parse_ints(p[3]), int(p[5])
         if len(k) != len(keys) or len(v) != nv:
             return ("length-changed", "slice lengths changed")
+        if " torn " in " " + tail + " ":
+            # multi-word elements: some element's fields do not all belong to ONE original element
+            t = tail.split()
+            return ("torn-element", "elements torn (fields of one element come from different original elements): "
+                    + " ".join(t[t.index("torn") + 1:]) + " (count@first positions)")
         if k[n:] != keys[n:]:
             return ("suffix-touched", "keys beyond the common prefix (index >= %d) were modified" % n)
         if v[n:] != list(range(n, nv)):
@@ -122,7 +136,17 @@ class C15(Spec):
         # pairing + permutation: the value ids on the prefix are a permutation of 0..n-1 and slot i holds the key
         # that originally sat next to value id v[i]
         if sorted(v[:n]) != list(range(n)):
-            return ("values-not-permutation", "values on the prefix are not a permutation of the original values")
+            seen = {}
+            for i in range(n):
+                seen.setdefault(v[i], []).append(i)
+            dup = [(x, ps) for x, ps in seen.items() if len(ps) > 1]
+            lost = [x for x in range(n) if x not in seen]
+            more = ""
+            if dup:
+                more += "; %d value(s) occur more than once, e.g. #%d at positions %s" % (len(dup), dup[0][0], dup[0][1][:4])
+            if lost:
+                more += "; %d original value(s) are lost, e.g. #%s" % (len(lost), ",#".join(map(str, lost[:4])))
+            return ("values-not-permutation", "values on the prefix are not a permutation of the original values" + more)
         for i in range(n):
             if k[i] != keys[v[i]]:
                 return ("pairing-broken", "slot %d holds key %d with value #%d whose original key was %d" % (i, k[i], v[i], keys[v[i]]))
